@@ -199,6 +199,15 @@ async function build (tier) {
     stats = addStats(stats, r.stats)
     for (const l of r.leaves) leaves.push({ fam: 'gen', key: 'gen:' + l.key, code: G.render(l), file: '/p/app.js', config: 'FULL' })
   }
+  // (ii-b) every literal placement of C14 (declarations, patterns, module declarations, wrappers): the literal
+  // collector walks syntax the operation visitors never look at
+  {
+    const C14 = require('./C14.js')
+    for (const place of C14.placementNames()) for (const lenIdx of (thorough ? [1, 6, 11] : [6])) {
+      stats.states++; stats.transitions++
+      leaves.push({ fam: 'lits', key: 'lits:' + place + ':' + lenIdx, code: C14.buildProgram(place, lenIdx, 'same_line', 'once', true, false, 'plain').text, file: '/p/app.js', config: 'FULL' })
+    }
+  }
   // (iii) file names x reference kinds x reader answers x settings
   {
     const bigTimes = thorough ? 64 * 1024 * 1024 : 8 * 1024 * 1024
@@ -347,7 +356,8 @@ function requests (leaf) {
 function normPanic (msg) {
   let m = String(msg || '')
   m = m.replace(/\/root\/\.cargo\/registry\/src\/[^/]+\//, '').replace(/:\d+$/, '')
-  m = m.replace(/`[^`]*`/g, '`…`').replace(/\d+/g, 'N')
+  // (the quoted source snippet may itself contain backticks: from the first to the last one)
+  m = m.replace(/`[\s\S]*`/, '`…`').replace(/\d+/g, 'N')
   return m.slice(0, 160)
 }
 
